@@ -233,6 +233,11 @@ func subVecGeneric(res, a, b Vector) {
 }
 
 func scalarMulVecGeneric(res, a Vector, b *{{.ElementName}}) {
+	if len(a) > 0 {
+		// b may point into res: read it once
+		scalar := *b
+		b = &scalar
+	}
 	if len(a) != len(res) {
 		panic("vector.ScalarMul: vectors don't have the same length")
 	}
